@@ -46,7 +46,10 @@ def class_keys(sub) -> List[tuple]:
 
 def _work(args) -> dict:
     keys, seed, k = args
-    sub = valuecheck.subject()
+    return check_keys(valuecheck.subject(), keys, seed, k)
+
+
+def check_keys(sub, keys, seed: int, k: int) -> dict:
     m = sub.model
     ctx = Ctx("C10", "quick", seed)
     res: Dict[str, Any] = {"evaluations": 0, "hashes": set(), "samples": [], "variants": collections.Counter(), "attributes": 0}
